@@ -26,4 +26,4 @@ for p in "$@"; do
   fi
 done
 git -C /repo worktree remove --force "$wt"
-rm -rf /root/scratch/replays_$name /verif/.gen-root_scratch_sens_$name /verif/.bin/*root_scratch_sens_$name*
+rm -rf /root/scratch/replays_$name /dev/shm/verif-evidence-root_scratch_sens_$name /verif/.gen-root_scratch_sens_$name /verif/.bin/*root_scratch_sens_$name*
